@@ -841,7 +841,12 @@ func (z *zzC06Srv) query(name string, qtype uint16, bound time.Duration) (o zzC0
 	req.RecursionDesired = true
 	req.Question = []dns.Question{{Name: name + ".", Qtype: qtype, Qclass: dns.ClassINET}}
 
-	cl := &dns.Client{Net: "udp", Timeout: bound}
+	// Like real stub resolvers the client advertises a 4096-octet UDP buffer
+	// (EDNS0): random tables pile up duplicate entries, and an answer beyond
+	// 512 octets read through a 512-octet buffer fails to unpack although the
+	// reply itself is fine.
+	req.SetEdns0(4096, false)
+	cl := &dns.Client{Net: "udp", Timeout: bound, UDPSize: 4096}
 	reply, _, err := cl.Exchange(req, z.addr)
 	o = zzC06Obs{Ask: z.ups.take(), IPs: []string{}}
 	if err != nil {
